@@ -9,6 +9,8 @@ Sub-spaces
            supergate blackbox replaced by its supergate equals the original function.
 Oracle: refgraph closure for disjointness / order / cover; refsim for equivalence.
 """
+import itertools
+
 from mcv import common, refgraph, refsim, space
 from mcv.common import Acc
 
@@ -193,6 +195,15 @@ def descs_struct(tier):
         d = space.to_desc(2, gates, consts=("0", "1"), outputs="sinks")
         if live_only(d) and not any(x[1] in ("0", "1") and x[3] for x in d["nodes"]):
             yield d
+    # two output cones sharing a gate n that can be internal to one supergate and an input of another
+    for t1, t2, t3, t4, t5 in itertools.product(("and", "xor"), repeat=5):
+        for x in ("a", "b", "p", "t"):
+            for y in ("t", "a", "p"):
+                for extra_out in ((), ("n",), ("a",)):
+                    nodes = [[i, "input", [], False] for i in "pqrst"]
+                    nodes += [["a", t1, ["p", "q"], "a" in extra_out], ["b", t2, ["r", "s"], False], ["n", t3, ["a", "b"], "n" in extra_out],
+                              ["o1", t4, ["n", x], True], ["o2", t5, ["n", y], True]]
+                    yield {"name": "share", "nodes": nodes}
     # several outputs sharing logic: every gate is an output
     I, G, types = bounds(tier)["shared"]
     for gates in space.circuits(I, G, types=types, max_arity=2, min_gates=G):
